@@ -29,7 +29,9 @@ fn strings_upto(alphabet: &[char], maxlen: usize) -> Vec<String> {
 const THRESHOLDS: &[usize] = &[3, 4, 7, 8, 12, 13, 17, 18, 24, 25];
 
 fn gen_word(rng: &mut impl Rng, target_bytes: usize) -> String {
-    let alpha: &[char] = &['a', 'b', 'c', 'd', 'e', 'x', 'y', '_', 'é', '日', 'ß', 'A'];
+    // (a backtick now and then: the messages quote names in backticks, and code that escapes them must not feed
+    // the escaped text to the helper)
+    let alpha: &[char] = &['a', 'b', 'c', 'd', 'e', 'x', 'y', '_', 'é', '日', 'ß', 'A', 'a', 'b', 'c', 'd', 'e', 'x', 'y', '_', 'é', '日', 'ß', 'A', '`', '.'];
     let mut s = String::new();
     while s.len() < target_bytes {
         let c = alpha[rng.random_range(0..alpha.len())];
